@@ -4,6 +4,10 @@ from checks import common, attempt_driver
 
 def body(chk):
     attempt_driver.run(chk, 'C02')
+    # the attempt takes "no match / ambiguous / one definition" from step::Collection::find (an oracle above): the real find
+    # is decided here as well, because "a step matching several definitions is Failed as ambiguous" depends on it
+    from checks import c17
+    c17.obligations(chk, 'C02')
 
 
 if __name__ == '__main__':
